@@ -11,7 +11,7 @@ from progs import differentiable_nonleaves, numel, random_mtl, random_program
 from prop_C01 import TRUSTED
 
 from torchjd import backward, mtl_backward
-from torchjd.aggregation import Aggregator
+from torchjd.aggregation import Aggregator, Constant
 
 
 class Recording(Aggregator):
@@ -231,6 +231,54 @@ def run_history(ctx: Ctx, P, M, ops):
     return True
 
 
+def low_precision_accumulators(ctx: Ctx):
+    """pre-existing .grad of ARBITRARY content in a reduced-precision parameter (float16 / bfloat16): ±inf, nan, entries at
+    the top of the dtype's range, sums that leave it.  `new .grad = old .grad + update` in the arithmetic of the dtype
+    (inf stays inf, an out-of-range sum becomes inf, exactly as torch.autograd accumulates); the update itself is a small
+    integer combination, exact in both dtypes.  Repeated on the retained graph: the k-th call adds the update again."""
+    rng = ctx.rng
+    dt = rng.choice([torch.float16, torch.bfloat16])
+    n = rng.randint(2, 5)
+    top = float(torch.finfo(dt).max)
+    scale = rng.choice([1, 64, 1024, 8192])               # powers of two: products stay exact
+    c = [[rng.randint(-3, 3) for _ in range(n)] for _ in range(2)]
+    w = [rng.randint(1, 3), rng.randint(-2, 3)]
+    upd = [scale * (w[0] * c[0][j] + w[1] * c[1][j]) for j in range(n)]          # |.| <= 15 * 8192 — may exceed float16's range
+    p = torch.tensor([float(rng.randint(-3, 3)) for _ in range(n)], dtype=dt, requires_grad=True)
+    other = torch.tensor([1.0, 2.0], dtype=dt, requires_grad=True)
+    y = torch.stack([(p * torch.tensor(c[0], dtype=dt)).sum() * scale + other.sum() * 0, (p * torch.tensor(c[1], dtype=dt)).sum() * scale])
+    old = [rng.choice([float("inf"), float("-inf"), float("nan"), top, -top, top / 2, -top / 4, 1.0, 0.0, -3.0]) for _ in range(n)]
+    p.grad = torch.tensor(old, dtype=dt)
+    keep = p.grad
+    other_old = torch.tensor([float("inf"), 5.0], dtype=dt)
+    other.grad = other_old.clone()
+    u = torch.tensor([float(v) for v in upd], dtype=dt)    # rounds to ±inf exactly when the update leaves the range
+    expected = torch.tensor(old, dtype=dt)
+    calls = rng.randint(1, 3)
+    rp = {"scenario": "low-precision accumulator", "dtype": str(dt), "old": [str(v) for v in old], "update": upd, "calls": calls,
+          "c": c, "w": w, "scale": scale}
+    ctx.case(("lowprec", str(dt), tuple(str(v) for v in old), tuple(upd), calls), nontrivial=True,
+             sample={"scenario": "low-precision accumulator", "dtype": str(dt), "old": [str(v) for v in old], "update": upd})
+    ctx.count("low_precision_accumulators", str(dt))
+    for k in range(calls):
+        try:
+            backward(y, Constant(torch.tensor([float(v) for v in w], dtype=dt)), inputs=[p], retain_graph=True)
+        except Exception as e:  # noqa: BLE001
+            ctx.violation(f"backward raised {type(e).__name__}: {e} on a {dt} parameter with a pre-existing .grad", rp)
+            return
+        expected = expected + u
+        if p.grad is not keep:
+            ctx.violation(f"the existing {dt} .grad was replaced instead of updated in place", rp)
+            return
+        if not torch.equal(torch.nan_to_num(p.grad.float(), nan=12345.0), torch.nan_to_num(expected.float(), nan=12345.0)):
+            ctx.violation(f"call {k + 1}: a {dt} .grad holding {old} received the update {upd} {k + 1} time(s) and is now "
+                          f"{p.grad.tolist()}; old + update in the arithmetic of the dtype is {expected.tolist()}", rp)
+            return
+        if not torch.equal(torch.nan_to_num(other.grad.float(), nan=12345.0), torch.nan_to_num(other_old.float(), nan=12345.0)):
+            ctx.violation(f"the .grad of a {dt} leaf that was not requested changed from {other_old.tolist()} to {other.grad.tolist()}", rp)
+            return
+
+
 def main(ctx: Ctx):
     ctx.lean_gate()
     n = 200 if ctx.tier == "quick" else 30000
@@ -246,11 +294,14 @@ def main(ctx: Ctx):
                  sample={"program": P.describe(), "ops": [str(o) for o in ops]})
         ctx.count("history_len", len(ops))
         ctx.count("calls_in_history", sum(1 for o in ops if o[0] in ("backward", "mtl")))
+        if i % 8 == 0:
+            low_precision_accumulators(ctx)
     return ctx.finish(
         rule="histories of 1-6 operations (backward / mtl_backward with retain_graph=True incl. repeated identical "
              "calls through ONE stateful aggregator object, .grad.zero_(), .grad=None, in-place edits, two parameters sharing one "
              "gradient tensor, pre-existing .grad of arbitrary content) on ONE graph "
              "of a random P-int program; after every operation: .grad of all leaves == heap model (values), values of "
              "all tensors unchanged, no .grad shares storage with any tensor of the graph, with the (recorded) "
-             "aggregator output or with another .grad, existing .grad updated in place",
+             "aggregator output or with another .grad, existing .grad updated in place; float16 / bfloat16 parameters whose "
+             "pre-existing .grad holds ±inf, nan and entries at the top of the range: new == old + update in the dtype's arithmetic",
         trusted=TRUSTED + ["untyped_storage().data_ptr() identifies memory sharing among live tensors"])
